@@ -28,6 +28,7 @@ type Clause struct {
 	Fn     *ssa.Function
 	Locals []string // loop clauses: names of the local variables passed after the params
 	Line   int
+	Props  []string // clause-level property tags: the obligation counts only for these properties
 }
 
 type LoopSpec struct {
@@ -54,9 +55,12 @@ type Contract struct {
 	ModNothing bool
 	Modifies   []*Clause
 	AllocBound int
+	AllocExpr  *Clause // bound as an int expression over the parameters (entry state)
+	AllocBuf   bool    // bound = bytes unread in the *bytes.Buffer parameter on entry (sweep option)
 	Trusted    bool
 	Auto       bool // default contract created by a sweep directive
 	NonNil     bool // all pointer parameters are required to be non-nil
+	Exhaustive bool // decided by running the real function on every input of its (small) domain
 	NilRecv    bool
 	IsLemma    bool
 	LemmaSig   string
@@ -81,9 +85,10 @@ type pkgSpec struct {
 }
 
 type sweepSpec struct {
-	Root  string
-	Props []string
-	Line  int
+	Root     string
+	Props    []string
+	Line     int
+	AllocBuf bool
 }
 
 const contractFile = "zz_contracts_verif.go"
@@ -189,6 +194,20 @@ func parseContractFile(rel, src string) (*pkgSpec, error) {
 			continue
 		}
 		word, rest := splitWord(l)
+		// clause-level property tags: ensures[C19 C17] <expr>
+		var clauseProps []string
+		if i := strings.Index(word, "["); i > 0 && !strings.HasSuffix(word, "]") {
+			// tags contain spaces: rejoin up to the closing bracket
+			j := strings.Index(l, "]")
+			if j > 0 {
+				clauseProps = strings.Fields(l[i+1 : j])
+				word = word[:i]
+				rest = strings.TrimSpace(l[j+1:])
+			}
+		} else if i > 0 && strings.HasSuffix(word, "]") {
+			clauseProps = strings.Fields(word[i+1 : len(word)-1])
+			word = word[:i]
+		}
 		switch word {
 		case "spec":
 			inSpec = true
@@ -205,7 +224,13 @@ func parseContractFile(rel, src string) (*pkgSpec, error) {
 			w, r3 := splitWord(r2)
 			sw := sweepSpec{Root: key, Line: ln}
 			if w == "props" {
-				sw.Props = strings.Fields(r3)
+				for _, f := range strings.Fields(r3) {
+					if f == "allocbuf" {
+						sw.AllocBuf = true
+					} else {
+						sw.Props = append(sw.Props, f)
+					}
+				}
 			}
 			ps.sweeps = append(ps.sweeps, sw)
 			cur = nil
@@ -223,7 +248,7 @@ func parseContractFile(rel, src string) (*pkgSpec, error) {
 			case "requires":
 				cur.Requires = append(cur.Requires, &Clause{Text: rest, Line: ln})
 			case "ensures":
-				cur.Ensures = append(cur.Ensures, &Clause{Text: rest, Line: ln})
+				cur.Ensures = append(cur.Ensures, &Clause{Text: rest, Line: ln, Props: clauseProps})
 			case "old":
 				// old <name> <type> = <expr>
 				eq := strings.Index(rest, "=")
@@ -244,9 +269,11 @@ func parseContractFile(rel, src string) (*pkgSpec, error) {
 				r := strings.TrimSpace(strings.TrimPrefix(strings.TrimSpace(rest), "<="))
 				n, err := strconv.Atoi(r)
 				if err != nil {
-					return nil, fmt.Errorf("line %d: alloc <= N", ln)
+					// an int expression over the parameters, evaluated on entry
+					cur.AllocExpr = &Clause{Text: r, Line: ln}
+				} else {
+					cur.AllocBound = n
 				}
-				cur.AllocBound = n
 			case "trusted":
 				cur.Trusted = true
 				if rest != "" {
@@ -256,6 +283,8 @@ func parseContractFile(rel, src string) (*pkgSpec, error) {
 				cur.NilRecv = true
 			case "nonnil":
 				cur.NonNil = true
+			case "exhaustive":
+				cur.Exhaustive = true
 			case "inline":
 				cur.LemmaMode = "inline"
 			case "note":
@@ -639,8 +668,13 @@ func ite[T any](c bool, a, b T) T {
 	return b
 }
 
+// verif_fresh(p): p was allocated during the current execution of the function
+// under contract (a ghost predicate; it has no run-time observer).
+func verif_fresh(p any) bool { return true }
+
 var _ = verif_forall
 var _ = verif_exists
+var _ = verif_fresh
 `)
 	for _, l := range ps.specCode {
 		body.WriteString(l)
@@ -708,6 +742,9 @@ var _ = verif_exists
 		for k, cl := range c.Ensures {
 			emit(cl, fmt.Sprintf("verif_%s_post%d", c.ID, k), join(plist, rlist, strings.Join(oldParams, ", ")), "bool")
 		}
+		if c.AllocExpr != nil {
+			emit(c.AllocExpr, fmt.Sprintf("verif_%s_alloc", c.ID), plist, "int")
+		}
 		for k, cl := range c.Modifies {
 			// a modifies expression denotes an object (pointer); typed as any via a generic wrapper
 			cl.FnName = fmt.Sprintf("verif_%s_mod%d", c.ID, k)
@@ -726,7 +763,7 @@ var _ = verif_exists
 				vs = append(vs, v[0]+" "+v[1])
 				names = append(names, v[0])
 			}
-			params := join(plist, strings.Join(vs, ", "))
+			params := join(plist, strings.Join(oldParams, ", "), strings.Join(vs, ", "))
 			for k, cl := range ls.Invariants {
 				cl.Locals = names
 				emit(cl, fmt.Sprintf("verif_%s_L%dinv%d", c.ID, li, k), params, "bool")
